@@ -40,16 +40,16 @@ Definition res_map {A B} (f : A -> B) (r : res A) : res B := match r with Ok a =
 Inductive fcase :=
 | FSphere (radius : float) (c : fv3) (xs ys zs : list float) (out : list fv3)
 | FBall (radius : float) (c : fv3) (ulo uhi : float) (xs ys zs us : list float) (out : list fv3)
-| FBox (m : mode) (pc : bool) (p1 p2 : list float) (n : Z) (us : list (list float)) (out : res (list (list float)))
+| FBox (m : option mode) (pc : bool) (p1 p2 : list float) (n : Z) (us : list (list float)) (out : res (list (list float)))
 | FPoly (V : list fv3) (E : list (Z * Z)) (n : Z) (chosen : list Z) (ts : list float)
         (probs : option (list float)) (out : res (list fv3))
 | FSurf (V : list fv3) (F : list tri) (chosen : list Z) (us : list (float * float))
         (probs : list float) (out : res (list fv3)) (normals : option (list fv3))
 | FCurve (P : list (list float)) (t : float) (out : res (list float))
 | FPatch (rows : list (list (list float))) (u v : float) (out : res (list float))
-| FPolylineX (P : list (list float)) (n_pts : Z) (custom : option (list float))
+| FPolylineX (P : list (list float)) (n_pts : option Z) (custom : option (list float))
              (out : res (list (list float) * list float * list (Z * Z)))
-| FSurfaceX (rows : list (list (list float))) (n1 n2 : Z)
+| FSurfaceX (rows : list (list (list float))) (n1 n2 : option Z)
             (out : res (list (list float) * list (float * float) * list (list Z))).
 
 Definition check_f (c : fcase) : bool :=
@@ -60,7 +60,9 @@ Definition check_f (c : fcase) : bool :=
       (* the range handed to np.random.uniform is the one Gen.v extracted, and the draws respect it *)
       && feq (ball_u_lo Fops radius) ulo && feq (ball_u_hi Fops radius) uhi
       && forallb (fun u => PrimFloat.leb ulo u && PrimFloat.ltb u uhi) us
-  | FBox m pc p1 p2 n us out =>
+  | FBox m0 pc p1 p2 n us out =>
+      (* an omitted argument takes the default extracted from the signature (Gen.v) *)
+      let m := match m0 with Some m => m | None => if box_default_mode_uniform then MUniform else MGrid end in
       match m with
       | MGrid => res_eqb feqll (res_map lex_sort (sample_box Fops m pc p1 p2 n us)) (res_map lex_sort out)
       | _ => res_eqb feqll (sample_box Fops m pc p1 p2 n us) out
@@ -84,9 +86,10 @@ Definition check_f (c : fcase) : bool :=
   | FPolylineX P n_pts custom out =>
       res_eqb (fun a b => let '(v1, t1, e1) := a in let '(v2, t2, e2) := b in
                           feqll v1 v2 && feql t1 t2 && list_eqb zpair_eqb e1 e2)
-              (as_polyline Fops P n_pts custom) out
+              (as_polyline Fops P (match n_pts with Some n => n | None => polyline_default_n_pts end) custom) out
   | FSurfaceX rows n1 n2 out =>
       res_eqb (fun a b => let '(v1, t1, f1) := a in let '(v2, t2, f2) := b in
                           feqll v1 v2 && list_eqb fpair_eqb t1 t2 && list_eqb zeql f1 f2)
-              (as_surface Fops rows n1 n2) out
+              (as_surface Fops rows (match n1 with Some n => n | None => surface_default_n1 end)
+                                    (match n2 with Some n => n | None => surface_default_n2 end)) out
   end.
